@@ -326,6 +326,7 @@ class CompilerArgs(T.MutableSequence[str]):
         self.flush_pre_post()
         # Only allow equality checks against other CompilerArgs and lists instances
         if isinstance(other, CompilerArgs):
+            other.flush_pre_post()
             return self.compiler == other.compiler and self._container == other._container
         elif isinstance(other, list):
             return self._container == other
